@@ -88,6 +88,11 @@ func (e *Exec) loadAddr(st *State, a *Addr) Val {
 	case aCell:
 		return e.readCell(st, a.base, a.ft)
 	case aGlobal:
+		if gd := e.P.CS.Globals[a.gname]; gd != nil {
+			env := &Env{e: e, vars: map[string]Val{}, st: st, ctx: "global " + a.gname}
+			return castTo(e.evalExpr(env, gd.Expr), kindOf(a.ft), a.ft)
+		}
+		e.note("global %s read without a declared value (unconstrained)", a.gname)
 		return e.readAt(st, "G_"+sanitize(a.gname), a.ft, "0")
 	}
 	return vUnit()
@@ -114,6 +119,9 @@ func (e *Exec) storeAddr(st *State, a *Addr, v Val) {
 	case aCell:
 		e.writeCell(st, a.base, a.ft, v)
 	case aGlobal:
+		if gd := e.P.CS.Globals[a.gname]; gd != nil && e.fn != nil && e.fn.Name() != "init" {
+			e.oblige(st, "global:"+gd.Name+":immutable", "discipline", gd.Tags, "false", "store to global "+a.gname+" declared immutable", 0)
+		}
 		e.writeAt(st, "G_"+sanitize(a.gname), a.ft, "0", v)
 	}
 }
